@@ -58,6 +58,44 @@ Proof.
   apply str_eqb_iff; assumption.
 Qed.
 
+(* Key.HasPrefix(ke) <=> the first component is ke; and it implies Key.Has(ke) *)
+Lemma split_plus_2_aux_hd l : forall cur, hd [] (split_plus_2_aux l cur) = hd [] (split_plus_aux l cur).
+Proof.
+  induction l as [|b r IH]; intro cur; cbn [split_plus_2_aux split_plus_aux]; [reflexivity|].
+  destruct (bZ b =? 43)%Z; [reflexivity|apply IH].
+Qed.
+
+Lemma split_plus_2_aux_nonempty l : forall cur, split_plus_2_aux l cur <> [].
+Proof.
+  induction l as [|b r IH]; intro cur; cbn [split_plus_2_aux]; [discriminate|].
+  destruct (bZ b =? 43)%Z; [discriminate|apply IH].
+Qed.
+
+Lemma split_plus_aux_nonempty l : forall cur, split_plus_aux l cur <> [].
+Proof.
+  induction l as [|b r IH]; intro cur; cbn [split_plus_aux]; [discriminate|].
+  destruct (bZ b =? 43)%Z; [discriminate|apply IH].
+Qed.
+
+Lemma key_has_prefix_iff k ke : key_has_prefix k ke = true <-> key_first k = ke.
+Proof.
+  unfold key_has_prefix, key_first, key_parts.
+  rewrite <- (split_plus_2_aux_hd k []).
+  pose proof (split_plus_2_aux_nonempty k []) as Hne.
+  destruct (split_plus_2_aux k []) as [|p rest]; [congruence|]. cbn [hd]. apply str_eqb_iff.
+Qed.
+
+Lemma key_first_in_parts k : In (key_first k) (key_parts k).
+Proof.
+  unfold key_first, key_parts. pose proof (split_plus_aux_nonempty k []) as Hne.
+  destruct (split_plus_aux k []); [congruence|left; reflexivity].
+Qed.
+
+Lemma key_has_prefix_has k ke : key_has_prefix k ke = true -> key_has k ke = true.
+Proof.
+  intro H. apply key_has_prefix_iff in H. unfold key_has. apply memb_In. rewrite <- H. apply key_first_in_parts.
+Qed.
+
 Lemma tagset_keys_sound tss schema t : In t (tagset_keys tss schema) -> Offers tss schema t.
 Proof.
   unfold tagset_keys, Offers. destruct (find _ tss) as [ts|] eqn:E; [|intros []].
@@ -95,14 +133,36 @@ Qed.
 Lemma in_category_rates_sound d c cat rate :
   in_category_rates (regime_for d c) cat rate = true -> rate <> [] -> resolves mp d (RefRate c cat rate).
 Proof.
-  unfold in_category_rates. intros H Hne.
+  unfold in_category_rates, in_category_rates_with. intros H Hne.
   destruct (regime_for d c) as [r|] eqn:E; [|apply is_empty_true in H; contradiction].
   destruct (category_for r cat) as [ca|] eqn:Ec; [|apply is_empty_true in H; contradiction].
   apply orb_true_iff in H as [H | H]; [apply is_empty_true in H; contradiction|].
   apply existsb_exists in H as [rt [Hrt Hk]].
   apply category_for_some in Ec as [Hca Hcode].
   exists r, ca, rt. split; [apply regime_for_some; assumption|].
-  repeat split; try assumption. unfold key_has in Hk. apply memb_In; assumption.
+  repeat split; try assumption. apply key_has_prefix_iff; assumption.
+Qed.
+
+(* conversely (the rule is exact for the regime the look-up finds): a key whose first component is a
+   rate of the category is accepted - extended keys such as `exempt+reverse-charge` stay valid *)
+Lemma in_category_rates_complete r ca cat rate rt :
+  category_for r cat = Some ca -> In rt (cat_rates ca) -> key_first rate = rt_key rt ->
+  in_category_rates (Some r) cat rate = true.
+Proof.
+  unfold in_category_rates, in_category_rates_with. intros -> Hin Hk.
+  apply orb_true_iff; right. apply existsb_exists. exists rt. split; [assumption|].
+  apply key_has_prefix_iff; assumption.
+Qed.
+
+(* the repaired rule accepts no more than the rule as shipped before it *)
+Lemma in_category_rates_stricter r cat rate :
+  in_category_rates r cat rate = true -> in_category_rates_any_part r cat rate = true.
+Proof.
+  unfold in_category_rates, in_category_rates_any_part, in_category_rates_with.
+  destruct r as [r|]; [|trivial]. destruct (category_for r cat) as [ca|]; [|trivial].
+  intro H. apply orb_true_iff in H as [H|H]; apply orb_true_iff; [left; assumption|right].
+  apply existsb_exists in H as [rt [Hin Hk]]. apply existsb_exists. exists rt.
+  split; [assumption|apply key_has_prefix_has; assumption].
 Qed.
 
 Lemma ext_ok_sound d k v : ext_ok mp d k v = true -> resolves mp d (RefExt k v).
@@ -216,7 +276,7 @@ Qed.
 Lemma combo_rate_key_resolves_lemma d r c :
   validate_refs mp d r = true -> In c (r_combos r) -> cr_rate c <> [] ->
   exists rg ca rt, RegimeOf d (applying_country (r_regime r) c) rg /\ In ca (rg_categories rg) /\
-                   cat_code ca = cr_cat c /\ In rt (cat_rates ca) /\ In (rt_key rt) (key_parts (cr_rate c)).
+                   cat_code ca = cr_cat c /\ In rt (cat_rates ca) /\ key_first (cr_rate c) = rt_key rt.
 Proof.
   intros H Hc Hne. pose proof (refcheck_sound_lemma d r H) as F. rewrite Forall_forall in F.
   apply (F (RefRate (applying_country (r_regime r) c) (cr_cat c) (cr_rate c))).
